@@ -105,7 +105,7 @@ void classic_refine(Ctx &ctx, GridState &st, const ClassicOp &co) {
 } // namespace
 
 void check_C07(Src &s, Ctx &ctx) {
-    SpecOpts so; so.min_outs = 1; so.max_outs = 3; so.cap = cfg().tier ? 900 : 250; so.custom = false; so.conformal = true;
+    SpecOpts so; so.min_outs = 1; so.max_outs = 3; so.cap = cfg().tier ? 350 : 250; so.custom = false; so.conformal = true;
     GridState st; st.cap = so.cap; st.ctx = &ctx;
     st.spec = decode_spec(s, so); st.vm.decode(s);
     make_grid(st.g, st.spec, so.cap);
